@@ -105,6 +105,20 @@ pub struct DiskState {
     pub total_calls: u64,
     pub log: Fnv,
     pub open_handles_peak: usize,
+    /// write-through to the real file system (the paths are real paths): switched on for a case once the
+    /// code under test turned out to ask the real file system about a file it wrote through the seam
+    /// (metadata, permissions, Path::exists, hard links ...). Content and faults stay simulated.
+    pub mirror: bool,
+}
+
+impl DiskState {
+    fn mirror_out(&self, path: &str) {
+        if self.mirror {
+            if let Some(bytes) = self.files.get(path) {
+                let _ = std::fs::write(path, bytes);
+            }
+        }
+    }
 }
 
 impl DiskState {
@@ -164,6 +178,7 @@ impl FsBackend for SimDisk {
         }
         // create truncates
         s.files.insert(path.to_string(), Vec::new());
+        s.mirror_out(path);
         let h = s.next_handle;
         s.next_handle += 1;
         s.handles.insert(h, Handle { path: path.to_string(), pos: 0, writing: true });
@@ -316,6 +331,9 @@ impl FsBackend for SimDisk {
         let mut s = self.state.borrow_mut();
         s.total_calls += 1;
         s.log.str("flush");
+        if let Some(p) = s.handles.get(&_handle).filter(|h| h.writing).map(|h| h.path.clone()) {
+            s.mirror_out(&p);
+        }
         Ok(())
     }
 
@@ -323,6 +341,9 @@ impl FsBackend for SimDisk {
         let mut s = self.state.borrow_mut();
         s.total_calls += 1;
         s.log.str("sync");
+        if let Some(p) = s.handles.get(&_handle).filter(|h| h.writing).map(|h| h.path.clone()) {
+            s.mirror_out(&p);
+        }
         Ok(())
     }
 
@@ -330,7 +351,11 @@ impl FsBackend for SimDisk {
         let mut s = self.state.borrow_mut();
         s.total_calls += 1;
         s.log.str("close");
-        s.handles.remove(&handle);
+        if let Some(h) = s.handles.remove(&handle) {
+            if h.writing {
+                s.mirror_out(&h.path);
+            }
+        }
     }
 
     // ---- path operations (a writer that goes through a temporary file and renames it, removes the old
@@ -349,6 +374,8 @@ impl FsBackend for SimDisk {
                     }
                 }
                 let _ = std::fs::remove_file(to); // a stale real file of that name must not shine through later
+                let _ = std::fs::remove_file(from);
+                s.mirror_out(to);
                 Some(Ok(()))
             }
             None => {
@@ -379,6 +406,50 @@ impl FsBackend for SimDisk {
         } else {
             None
         }
+    }
+
+    fn len_of_handle(&mut self, handle: u64) -> Option<u64> {
+        let s = self.state.borrow();
+        let h = s.handles.get(&handle)?;
+        Some(s.files.get(&h.path).map(|f| f.len()).unwrap_or(0) as u64)
+    }
+
+    fn len_of_path(&mut self, path: &str) -> Option<u64> {
+        let s = self.state.borrow();
+        s.files.get(path).map(|f| f.len() as u64)
+    }
+
+    fn seek(&mut self, handle: u64, to: io::SeekFrom) -> Option<io::Result<u64>> {
+        let mut s = self.state.borrow_mut();
+        s.total_calls += 1;
+        s.log.str("seek");
+        let len = match s.handles.get(&handle) {
+            Some(h) => s.files.get(&h.path).map(|f| f.len()).unwrap_or(0) as i128,
+            None => return Some(Err(io::Error::from_raw_os_error(libc::EBADF))),
+        };
+        let cur = s.handles[&handle].pos as i128;
+        let new = match to {
+            io::SeekFrom::Start(p) => p as i128,
+            io::SeekFrom::End(d) => len + d as i128,
+            io::SeekFrom::Current(d) => cur + d as i128,
+        };
+        if new < 0 {
+            return Some(Err(io::Error::from_raw_os_error(libc::EINVAL)));
+        }
+        s.handles.get_mut(&handle).unwrap().pos = new as usize;
+        Some(Ok(new as u64))
+    }
+
+    fn set_len(&mut self, handle: u64, len: u64) -> Option<io::Result<()>> {
+        let mut s = self.state.borrow_mut();
+        s.total_calls += 1;
+        s.log.str("set_len");
+        let path = match s.handles.get(&handle) {
+            Some(h) => h.path.clone(),
+            None => return Some(Err(io::Error::from_raw_os_error(libc::EBADF))),
+        };
+        s.files.entry(path).or_default().resize(len as usize, 0);
+        Some(Ok(()))
     }
 
     fn open_with(&mut self, path: &str, spec: &ohsl::verif_seam::fs::OpenSpec) -> Option<io::Result<u64>> {
@@ -422,6 +493,9 @@ impl FsBackend for SimDisk {
         }
         if writing && spec.truncate {
             s.files.insert(path.to_string(), Vec::new());
+        }
+        if writing {
+            s.mirror_out(path);
         }
         let pos = if spec.append { s.files[path].len() } else { 0 };
         let h = s.next_handle;
